@@ -140,3 +140,26 @@ Proof.
   split; [vm_compute; reflexivity|]. split; [vm_compute; reflexivity|].
   vm_compute. discriminate.
 Qed.
+
+(* ---- a valid name part is a valid (single-token) resource id ---- *)
+Lemma part_char_ok_inv : forall c, part_char_ok c = true ->
+  (c <? 33) = false /\ (126 <? c) = false /\ (c =? qmark) = false /\ (c =? star) = false /\ (c =? gt) = false /\ (c =? dot) = false.
+Proof.
+  intros c H. unfold part_char_ok in H.
+  destruct (c <? 33), (126 <? c), (c =? qmark), (c =? star), (c =? gt), (c =? dot); try discriminate H; repeat split; reflexivity.
+Qed.
+Lemma part_chars_rid_go : forall b t, forallb part_char_ok t = true -> (b = false \/ t <> []) -> is_valid_rid_go b t = true.
+Proof.
+  intros b t; revert b; induction t as [|c t IH]; intros b Hf Hb.
+  - destruct Hb as [->|Hb]; [reflexivity|congruence].
+  - cbn [forallb] in Hf. apply andb_prop in Hf as [Hc Hf].
+    destruct (part_char_ok_inv c Hc) as (H1 & H2 & H3 & H4 & H5 & H6).
+    cbn [is_valid_rid_go]. rewrite H1, H2, H3, H4, H5, H6. cbn [orb].
+    apply IH; [exact Hf | left; reflexivity].
+Qed.
+Lemma valid_part_is_rid_pf : forall t, is_valid_part t = true -> is_valid_rid t = true.
+Proof.
+  intros t H. unfold is_valid_part in H. apply andb_prop in H as [Hn Hf].
+  unfold is_valid_rid. apply part_chars_rid_go; [exact Hf|].
+  right. destruct t; [discriminate Hn | congruence].
+Qed.
